@@ -297,3 +297,62 @@ class DropNaND(Contract):
 
     def canaries(self, S, case, env, result):
         yield "everything-dropped", S.n(result.axes[case["d"]].values) == 0
+
+
+
+class DropNaMinvalid(Contract):
+    """BOUNDED STAND-IN ONLY (never counted as proved).  dropna(axis, minvalid=k) on arrays of 2-3 dimensions for every k from 0
+    to the slice size (and the default): exactly the labels whose slice holds at least k valid (non-NaN) values are kept
+    (the default keeps the slices without any NaN), in their original order, each slice with its label, other axes and
+    metadata kept, operand untouched.  Thresholds strictly between the ends need cardinalities; the counting law of the model
+    only pins count == 0 and count == extent, so the general threshold is evaluated on the real code over arrays with extents
+    1-3 and every NaN pattern of the family.  [C17]"""
+    target = "dimarray.core.missingvalues:dropna"
+    props = ("C17",)
+    native_only = True
+
+    def cases(self, tier):
+        for rank in (2, 3):
+            for d in range(rank):
+                yield {"name": "r%d-axis%d" % (rank, d), "rank": rank, "d": d}
+
+    def setup(self, S, case):
+        env = _setup(S, case["rank"])
+        for L in env["labels"]:
+            S.assume(S.n(L) >= 1, "at least one label")
+        env["k"] = S.int("k")
+        return env
+
+    def _minvalid(self, env):
+        import numpy as np
+        data = np.asarray(env["data"], dtype=float)
+        size = data.size // data.shape[env["case"]["d"]]
+        k = int(env["k"])
+        return None if k < 0 else min(k, size)        # the alphabet's negative values stand for "default"
+
+    def call(self, fn, env):
+        d = env["case"]["d"]
+        mv = self._minvalid(env)
+        return env["arr"].dropna(axis="x%d" % d) if mv is None else env["arr"].dropna(axis="x%d" % d, minvalid=mv)
+
+    def post(self, S, case, env, result):
+        import numpy as np
+        rank, d = case["rank"], case["d"]
+        data = np.asarray(env["data"], dtype=float)
+        labels = [np.asarray(L) for L in env["labels"]]
+        mv = self._minvalid(env)
+        moved = np.moveaxis(data, d, 0).reshape(data.shape[d], -1)
+        valid = (~np.isnan(moved)).sum(axis=1)
+        size = moved.shape[1]
+        keep = valid >= (size if mv is None else mv)
+        ref = np.compress(keep, data, axis=d)
+        def same(x, y):
+            x, y = np.asarray(x, dtype=float), np.asarray(y, dtype=float)
+            return x.shape == y.shape and bool(np.all((x == y) | (np.isnan(x) & np.isnan(y))))
+        yield "is-dimarray-with-the-same-dims", S.is_dimarray(result) and tuple(result.dims) == tuple("x%d" % e for e in range(rank))
+        yield "exactly-the-labels-with-enough-valid-values-are-kept-in-order", list(result.axes[d].values) == list(labels[d][keep])
+        yield "each-slice-moves-with-its-label", same(result.values, ref)
+        yield "other-axes-unchanged", all(list(result.axes[e].values) == list(labels[e]) for e in range(rank) if e != d)
+        yield "metadata-kept", dict(result.attrs) == env["attrs0"]
+        arr = env["arr"]
+        yield "operand-untouched", same(arr.values, data) and all(list(arr.axes[e].values) == list(labels[e]) for e in range(rank))
